@@ -16,7 +16,7 @@ RULE = ("plan = left list + right list (0..7 items each quick / 0..15 thorough; 
         "aggregate: dict grouping ordered by keys ascending with None last, summaries from the group's items in original "
         "order. Non-trivial: duplicate matching right key, None key, renamed key, or ≥ 2 groups with interleaved items. "
         "Distinct = plan hash.")
-CASES = {"quick": 3000, "thorough": 8000}
+CASES = {"quick": 3000, "thorough": 16000}
 
 KV = {"i": [None, 0, 1, 2], "s": [None, "x", "y"]}
 
